@@ -33,6 +33,12 @@ pub(super) fn handles_check(variant: u8) {
             drop(d);
             e
         }
+        3 => {
+            // plain construction; the difference is in the passes below
+            let c = &a2 * &b2;
+            let d = &c + &a2;
+            &d * &c
+        }
         _ => {
             // one variable re-bound to each new result
             let c = &a2 * &b2;
@@ -50,6 +56,16 @@ pub(super) fn handles_check(variant: u8) {
     } else {
         start.backward(Some(mk(&[2], sv.clone())));
     }
+    if variant == 3 {
+        // a second pass on both programs; in the variant a previously fetched gradient handle (and a clone
+        // of the leaf) stays alive across it: what a program keeps must not change what a pass deposits
+        let kept = grad_of(&a2).unwrap();
+        let kept_b = b2.gradient().to_owned().unwrap();
+        let leaf_clone = a2.clone();
+        e1.backward(Some(mk(&[2], sv.clone())));
+        start.backward(Some(mk(&[2], sv.clone())));
+        assert!(kept.values.len() == 2 && kept_b.values.len() == 2 && leaf_clone.values.len() == 2, "handles still alive");
+    }
     let mut i = 0;
     while i < 2 {
         assert!(start.values[i].to_bits() == e1.values[i].to_bits(), "C12 identical values");
@@ -65,6 +81,31 @@ pub(super) fn handles_check(variant: u8) {
     // a gradient deposited through any clone is visible through every other clone
     let a2c = a2.clone();
     assert!(grad_of(&a2c).is_some() && grad_of(&a2c).unwrap().values[0].to_bits() == ga2.values[0].to_bits(), "C12 gradient visible through every clone");
+}
+
+/// C12: what a program keeps alive must not change what a pass deposits: a previously fetched gradient
+/// handle, a clone of the leaf and the result of a `+` stay named across a second pass.
+pub(super) fn kept_gradient_check() {
+    let xv = sym_vec(2, sym_val);
+    let yv = sym_vec(2, sym_val);
+    let (a, b) = (mk(&[2], xv.clone()).tracked(), mk(&[2], yv.clone()).tracked());
+    let c = &a * &b;
+    let e = &c + &a;
+    e.backward(None);
+    let kept_a = a.gradient().to_owned().unwrap();
+    let kept_b = grad_of(&b).unwrap();
+    let kept_e = grad_of(&e).unwrap();
+    let leaf_clone = a.clone();
+    e.backward(None);
+    let (ga, gb, ge) = (grad_of(&leaf_clone).unwrap(), grad_of(&b).unwrap(), grad_of(&e).unwrap());
+    let mut i = 0;
+    while i < 2 {
+        assert!(ga.values[i] == 2.0 * (yv[i] + 1.0) && gb.values[i] == 2.0 * xv[i] && ge.values[i] == 2.0,
+                "C12/C10 the second pass accumulates whatever handles of the first gradient are still alive");
+        assert!(kept_a.values[i] == yv[i] + 1.0 && kept_b.values[i] == xv[i] && kept_e.values[i] == 1.0,
+                "C08 a previously fetched gradient is not changed by a later pass");
+        i += 1;
+    }
 }
 
 /// C18: after every result derived from the leaves has been dropped, each leaf is the sole owner of
@@ -100,6 +141,9 @@ pub(super) fn release_check(variant: u8) {
     assert!(v.len() == 2, "C18 the leaf can be converted into its buffer (sole owner)");
 }
 
+macro_rules! kept_gradient_instance {
+    ($name:ident, $unwind:expr) => { vk_harness!($name, $unwind, { kept_gradient_check(); }); };
+}
 macro_rules! handles_instance {
     ($name:ident, $unwind:expr, $variant:expr) => { vk_harness!($name, $unwind, { handles_check($variant); }); };
 }
